@@ -131,7 +131,7 @@ def _ctx_calls(rng, schemes, n, allow_hash=True, cats=(None,)):
 
 
 def generate(rng, prop, tier):
-    t = rng.choices(["T1", "T2", "T3", "T4", "T5", "T6", "T7", "T8", "T9", "T10", "T11"], [18, 12, 18, 11, 13, 8, 4, 13, 3, 3, 4])[0]
+    t = rng.choices(["T1", "T2", "T3", "T4", "T5", "T6", "T7", "T8", "T9", "T10", "T11", "T12"], [18, 12, 18, 11, 13, 8, 4, 13, 3, 3, 4, 3])[0]
     nthreads = rng.choice([2, 2, 2, 3])
     params = {}
     threads = []
@@ -227,6 +227,11 @@ def generate(rng, prop, tier):
             threads.append([rng.choice([["genphrase", rng.choice(["eff_long", "eff_short", "eff_prefixed", "bip39"]), rng.choice([2, 4])],
                                         ["genword", rng.choice(["ascii_62", "ascii_72", "hex"]), rng.choice([4, 12])],
                                         ["wordset_len", rng.choice(["eff_long", "eff_short", "bip39"])]])
+                            for _ in range(rng.randint(1, 2))])
+    elif t == "T12":
+        # the pure-Python Blowfish engine (the builtin bcrypt backend's core): its constant tables are built on first use
+        for _ in range(nthreads):
+            threads.append([rng.choice([["bf_engine"], ["bf_engine"], ["bf_encipher", rng.randint(0, 2 ** 32 - 1), rng.randint(0, 2 ** 32 - 1)], ["bf_expand", f"key{rng.randint(0, 9)}"]])
                             for _ in range(rng.randint(1, 2))])
     elif t == "T10":
         # libpass context: cached properties and hashers shared by threads
@@ -644,6 +649,17 @@ def _call(env, k, spec):
         from passlib import pwd
 
         return len(pwd.default_wordsets[spec[1]])
+    if k.startswith("bf_"):
+        import zlib
+
+        from passlib.crypto._blowfish import BlowfishEngine
+
+        e = BlowfishEngine()
+        if k == "bf_encipher":
+            return list(e.encipher(spec[1], spec[2]))
+        if k == "bf_expand":
+            e.expand(e.key_to_words(spec[1].encode("ascii")))
+        return [zlib.crc32(repr(e.P).encode()), zlib.crc32(repr(e.S).encode())]
     if k == "lp_roundtrip":
         lp = env["lp"]
         h = lp.hash(spec[1])
@@ -852,7 +868,7 @@ def _target_kind(cfg):
     t = cfg["target"]
     return {"T1": "LazyCryptContext", "T2": "LazyCryptContext", "T3": "multi-backend-hasher", "T4": "LazyBase64Engine",
             "T5": "registry", "T6": "CryptContext-caches", "T7": "digest-cache", "T8": "post-init", "T9": "pwd-wordsets", "T11": "user-handler-module",
-            "T10": "libpass-context"}[t]
+            "T10": "libpass-context", "T12": "blowfish-tables"}[t]
 
 
 def _target_label(cfg):
@@ -878,6 +894,8 @@ def _target_label(cfg):
         return "user-handler-module"
     if t == "T10":
         return "libpass:" + ",".join(p["schemes"])
+    if t == "T12":
+        return "blowfish-engine"
     return "post-init"
 
 
